@@ -16,6 +16,33 @@
    header — a stale height of the answering version.  All of these are FAULTS and
    are budgeted (MaxFaults): the property only promises convergence once the source is stable.
 
+   Every answer is chosen PER REQUEST: the same height may be answered honestly the first time it is
+   asked for and with a corrupted / forged copy when it is asked for again after a stream reset (and
+   the other way round).  A corrupted copy ("bad") either claims another hash (corr = "hash") or
+   carries the HONEST header hash over altered content (any other corr); a forged copy ("fg") is
+   one of ForgedKinds: "diff" (state diff altered, hash re-sealed), "root" (claimed new state root
+   altered in header and state update, hash re-sealed: header, hash and state update are mutually
+   consistent and the diff is the honest one), "oldroot" (the state update's old root altered;
+   nothing commits to it but the state the block is applied to).  Forged copies pass the stateless
+   verification (SanityCheckNewHeight); only the state-root checks inside Blockchain.Store can
+   refuse them.
+
+   Block SHAPES.  EmptyDiff is the set of blocks whose state diff has no entry (empty blocks, blocks
+   whose transactions touched no state): applying such a diff leaves the state where it is, so for
+   them the root checks of Store are the ONLY thing that distinguishes the honest block from a
+   "root" / "oldroot" forgery.
+
+   What the database holds.  `tainted` is the set of blocks that were ever stored with content that
+   is not the source's block of that tag; StoredOnlyVerified (tainted = {}) is the property "every
+   block the node stores passed full verification" stated over the CONTENT of the database instead
+   of over the steps the pipeline took.  Two mechanisms stand between a faulty answer and the
+   database, each with a switch (TRUE = the code as it is; FALSE = the mechanism fails, TLC must
+   find StoredOnlyVerified violated — Sync_x_emptyroot.cfg, Sync_x_memo.cfg):
+     RootCheckedOnEmptyDiff  Store checks old and new state root also for a block without diff entries;
+     VerdictPerAnswer        the verifier's verdict belongs to the ANSWER it was computed on; FALSE: a
+                             verdict is remembered under the claimed block hash (`memo`) and reused
+                             for a later answer that claims the same hash.
+
    Node (one action per code step; the numbers are lines of sync/sync.go at the pinned commit):
      Spawn                 syncBlocks:509  fetchers.Go(fetcherTask(nextHeight)); nextHeight++
      FetchExit / FetchCheck / FetchCall   fetcherTask:183-187  ctx check; dataSource.BlockByNumber
@@ -72,6 +99,9 @@ CONSTANTS
   MaxFaults,       \* budget of injected errors / corrupt blocks / stale heads
   MaxPolls,        \* pollLatest iterations (one per minute in the code), per incarnation of the node
   MaxRestarts,     \* the node is stopped (context cancelled) and started again on the same database
+  EmptyDiff,       \* tags of the blocks whose state diff has no entry
+  RootCheckedOnEmptyDiff,
+  VerdictPerAnswer,
   FixH13,
   FixRevertVerify,
   FixUnderflow,
@@ -84,14 +114,17 @@ VARIABLES
   highest, catchUp, poll, polls,                           \* highestBlockHeader, catchUpMode, pollLatest
   curr,                                                    \* currReorg
   revSince, seenVers,                                      \* history: reverted since last store; versions heard from
-  stopping, restarts                                       \* the Synchronizer's context is cancelled; restarts so far
+  stopping, restarts,                                      \* the Synchronizer's context is cancelled; restarts so far
+  memo,                                                    \* claimed hashes (tags) with a remembered verdict (VerdictPerAnswer = FALSE only)
+  tainted                                                  \* blocks ever stored with content that is not the source's
 
 srcVars  == <<versions, nextTag, srcSteps, nReorgs>>
 pipeVars == <<cancelled, nextFetch, weff, fq, vq, rv, sp>>
 modeVars == <<highest, catchUp, poll, polls>>
 lifeVars == <<stopping, restarts>>
+auxVars  == <<memo, tainted>>
 vars == <<versions, nextTag, srcSteps, nReorgs, faults, local, cancelled, nextFetch, weff, fq, vq, rv, sp,
-          highest, catchUp, poll, polls, curr, revSince, seenVers, stopping, restarts>>
+          highest, catchUp, poll, polls, curr, revSince, seenVers, stopping, restarts, memo, tainted>>
 
 INF == 1000000                       \* uint64 underflow of "height - 1" / "height - 2"
 Prefix(c, n) == SubSeq(c, 1, n)
@@ -114,7 +147,7 @@ NoSp    == [on |-> FALSE, acked |-> FALSE, tag |-> 0, h |-> 0, rid |-> 0, hs |->
 NoReorg == [on |-> FALSE, s |-> 0, e |-> 0]
 IdlePoll == [st |-> "idle", v0 |-> 0, rid |-> 0, got |-> -1]
 NewTask(h) == [h |-> h, st |-> "run", v0 |-> 0, rid |-> 0, L |-> 0, kind |-> "none", blk |-> 0, bh |-> 0,
-               bad |-> FALSE, forged |-> FALSE, lv |-> 0]
+               bad |-> FALSE, forged |-> FALSE, alt |-> FALSE, keep |-> FALSE, lv |-> 0]
 
 Init ==
   /\ versions = << [j \in 1..InitLen |-> j] >> /\ nextTag = InitLen + 1 /\ srcSteps = 0 /\ nReorgs = 0 /\ faults = 0
@@ -123,6 +156,7 @@ Init ==
   /\ highest = -1 /\ catchUp = FALSE /\ poll = IdlePoll /\ polls = 0
   /\ curr = NoReorg /\ revSince = <<>> /\ seenVers = {}
   /\ stopping = FALSE /\ restarts = 0
+  /\ memo = {} /\ tainted = {}
 
 -----------------------------------------------------------------------------
 (* Source *)
@@ -140,7 +174,7 @@ SrcSet(c) ==
   /\ nextTag' = HeadTag(c) + 1
   /\ srcSteps' = srcSteps + 1
   /\ nReorgs' = IF Len(c) > Len(Cur) /\ Prefix(c, Len(Cur)) = Cur THEN nReorgs ELSE nReorgs + 1
-  /\ UNCHANGED <<faults, local, pipeVars, modeVars, curr, revSince, seenVers, lifeVars>>
+  /\ UNCHANGED <<faults, local, pipeVars, modeVars, curr, revSince, seenVers, lifeVars, auxVars>>
 
 Fresh(n) == [j \in 1..n |-> nextTag + j - 1]
 
@@ -162,8 +196,8 @@ HasBlock(v, h) == h < Len(versions[v])
 \* a block answer: r = "ok" | "bad" (corrupted copy) | "err"
 \* r = "ok"  the block of version ver at the requested height
 \*     "bad" a corrupted copy of it that verification (SanityCheckNewHeight) rejects
-\*     "fg"  a FORGED copy: altered state diff, hash recomputed so that header, hash and claimed roots are
-\*           consistent; verification accepts it, only Store's recomputation of the state root can reject it
+\*     "fg"  a FORGED copy (resp.corr \in ForgedKinds): header, hash and claimed roots are consistent;
+\*           verification accepts it, only the state-root checks of Store can reject it
 \*     "wh"  WRONG HEIGHT: a valid block of version ver at another height (stale / mixed-up answer)
 \*     "err"
 LegalBlockResp(v0, h, resp, ctxDone) ==
@@ -189,10 +223,18 @@ BlockRespsC(v0, h, corrs) ==
 WrongHeightResps(v0, h) ==
   UNION {{[r |-> "wh", ver |-> v, tag |-> BlockAt(v, g), corr |-> "none"] : g \in {x \in {h - 1, h + 1} : x >= 0 /\ HasBlock(v, x)}}
          : v \in VerRange(v0)}
+ForgedKinds == {"diff", "root", "oldroot"}
 ForgedResps(v0, h) ==
-  {[r |-> "fg", ver |-> v, tag |-> BlockAt(v, h), corr |-> "none"] : v \in {x \in VerRange(v0) : HasBlock(x, h)}}
-BlockResps(v0, h) ==                                       \* the fetch pipeline verifies: any corruption is the same
-  BlockRespsC(v0, h, {"other"}) \cup WrongHeightResps(v0, h) \cup ForgedResps(v0, h)
+  {[r |-> "fg", ver |-> v, tag |-> BlockAt(v, h), corr |-> k] : v \in {x \in VerRange(v0) : HasBlock(x, h)}, k \in ForgedKinds}
+\* do the state-root checks of Store refuse forgery k of block t?  (a "diff" forgery of a block without diff
+\* entries has an entry)
+RootBites(t, k) == RootCheckedOnEmptyDiff \/ t \notin EmptyDiff \/ k = "diff"
+\* does a corrupted copy claim the hash of the honest block?
+KeepsHash(resp) == resp.r = "bad" /\ resp.corr # "hash"
+BlockResps(v0, h) ==           \* the fetch pipeline verifies every answer: any corruption is the same to it,
+                               \* unless verdicts are remembered by claimed hash
+  BlockRespsC(v0, h, IF VerdictPerAnswer THEN {"other"} ELSE {"hash", "other"})
+    \cup WrongHeightResps(v0, h) \cup ForgedResps(v0, h)
 RevertResps(v0, h) == BlockRespsC(v0, h, {"hash", "parent", "other"})
 
 \* a latest-header answer: r = "ok" (height rh of version ver; stale when below its tip) | "err"
@@ -219,22 +261,22 @@ Spawn ==
   /\ ~cancelled /\ Running(fq) < weff /\ Len(fq) < weff + 2
   /\ fq' = Append(fq, NewTask(nextFetch))
   /\ nextFetch' = nextFetch + 1
-  /\ UNCHANGED <<srcVars, lifeVars, faults, local, cancelled, weff, vq, rv, sp, modeVars, curr, revSince, seenVers>>
+  /\ UNCHANGED <<srcVars, auxVars, lifeVars, faults, local, cancelled, weff, vq, rv, sp, modeVars, curr, revSince, seenVers>>
 
 FetchExit(i) ==                       \* top of the retry loop: ctx.Done
   /\ fq[i].st = "run" /\ cancelled
   /\ SetFq(i, [fq[i] EXCEPT !.st = "done", !.kind = "none"])
-  /\ UNCHANGED <<srcVars, lifeVars, faults, local, cancelled, nextFetch, weff, vq, rv, sp, modeVars, curr, revSince, seenVers>>
+  /\ UNCHANGED <<srcVars, auxVars, lifeVars, faults, local, cancelled, nextFetch, weff, vq, rv, sp, modeVars, curr, revSince, seenVers>>
 
 FetchCheck(i) ==                      \* top of the retry loop: ctx not done (a reset may still slip in before the call)
   /\ fq[i].st = "run" /\ ~cancelled
   /\ SetFq(i, [fq[i] EXCEPT !.st = "go"])
-  /\ UNCHANGED <<srcVars, lifeVars, faults, local, cancelled, nextFetch, weff, vq, rv, sp, modeVars, curr, revSince, seenVers>>
+  /\ UNCHANGED <<srcVars, auxVars, lifeVars, faults, local, cancelled, nextFetch, weff, vq, rv, sp, modeVars, curr, revSince, seenVers>>
 
 FetchCall(i, rid) ==                  \* observable: request BlockByNumber(h)
   /\ fq[i].st = "go"
   /\ SetFq(i, [fq[i] EXCEPT !.st = "wait", !.v0 = Len(versions), !.rid = rid])
-  /\ UNCHANGED <<srcVars, lifeVars, faults, local, cancelled, nextFetch, weff, vq, rv, sp, modeVars, curr, revSince, seenVers>>
+  /\ UNCHANGED <<srcVars, auxVars, lifeVars, faults, local, cancelled, nextFetch, weff, vq, rv, sp, modeVars, curr, revSince, seenVers>>
 
 FetchReturn(i, resp) ==               \* observable: the answer is delivered
   /\ fq[i].st = "wait"
@@ -244,20 +286,23 @@ FetchReturn(i, resp) ==               \* observable: the answer is delivered
   /\ IF resp.r = "err"
      THEN SetFq(i, [fq[i] EXCEPT !.st = "chk"])
      ELSE SetFq(i, [fq[i] EXCEPT !.st = "done", !.kind = "block", !.blk = resp.tag, !.bh = HeightOf(resp.tag),
-                                 !.bad = (resp.r = "bad"), !.forged = (resp.r = "fg")])
-  /\ UNCHANGED <<srcVars, lifeVars, local, cancelled, nextFetch, weff, vq, rv, sp, modeVars, curr, revSince>>
+                                 !.bad = (resp.r = "bad"),
+                                 !.forged = (resp.r = "fg" /\ RootBites(resp.tag, resp.corr)),
+                                 !.alt = (resp.r \in {"bad", "fg"}),
+                                 !.keep = (~VerdictPerAnswer /\ KeepsHash(resp))])
+  /\ UNCHANGED <<srcVars, auxVars, lifeVars, local, cancelled, nextFetch, weff, vq, rv, sp, modeVars, curr, revSince>>
 
 IsRevFast(i) ==                       \* exit 1 (also: Height() fails on an empty chain)
   /\ fq[i].st = "chk"
   /\ (Len(local) = 0 \/ Len(local) # fq[i].h)
   /\ SetFq(i, [fq[i] EXCEPT !.st = "run"])
-  /\ UNCHANGED <<srcVars, lifeVars, faults, local, cancelled, nextFetch, weff, vq, rv, sp, modeVars, curr, revSince, seenVers>>
+  /\ UNCHANGED <<srcVars, auxVars, lifeVars, faults, local, cancelled, nextFetch, weff, vq, rv, sp, modeVars, curr, revSince, seenVers>>
 
 IsRevCall(i, rid) ==                  \* observable: request BlockHeaderLatest
   /\ fq[i].st = "chk"
   /\ Len(local) > 0 /\ Len(local) = fq[i].h
   /\ SetFq(i, [fq[i] EXCEPT !.st = "lwait", !.L = Len(local) - 1, !.v0 = Len(versions), !.rid = rid])
-  /\ UNCHANGED <<srcVars, lifeVars, faults, local, cancelled, nextFetch, weff, vq, rv, sp, modeVars, curr, revSince, seenVers>>
+  /\ UNCHANGED <<srcVars, auxVars, lifeVars, faults, local, cancelled, nextFetch, weff, vq, rv, sp, modeVars, curr, revSince, seenVers>>
 
 IsRevReturn(i, resp) ==               \* observable: exits 2 and 3
   /\ fq[i].st = "lwait"
@@ -273,7 +318,7 @@ IsRevReturn(i, resp) ==               \* observable: exits 2 and 3
           ELSE SetFq(i, [fq[i] EXCEPT !.st = "done", !.kind = "revert",
                                        !.lv = IF resp.h = 0 THEN (IF FixUnderflow THEN 0 ELSE INF)
                                              ELSE resp.h - 1])
-  /\ UNCHANGED <<srcVars, lifeVars, local, cancelled, nextFetch, weff, vq, rv, sp, modeVars, curr, revSince>>
+  /\ UNCHANGED <<srcVars, auxVars, lifeVars, local, cancelled, nextFetch, weff, vq, rv, sp, modeVars, curr, revSince>>
 
 \* fetch callbacks run in submission order; each submits a verifier task (blocks while the pool is full)
 FetchCallback ==
@@ -282,20 +327,27 @@ FetchCallback ==
   /\ fq' = Tail(fq)
   \* h of a verifier task is the NUMBER OF THE BLOCK it carries (not the height that was asked for)
   /\ vq' = CASE fq[1].kind = "block"  -> Append(vq, [kind |-> "block", blk |-> fq[1].blk, bad |-> fq[1].bad,
-                                                   forged |-> fq[1].forged, h |-> fq[1].bh, rid |-> fq[1].rid,
-                                                   st |-> "run", lv |-> 0])
+                                                   forged |-> fq[1].forged, alt |-> fq[1].alt, keep |-> fq[1].keep,
+                                                   h |-> fq[1].bh, rid |-> fq[1].rid, st |-> "run", lv |-> 0])
              [] fq[1].kind = "revert" -> Append(vq, [kind |-> "revert", blk |-> 0, bad |-> FALSE, forged |-> FALSE,
+                                                   alt |-> FALSE, keep |-> FALSE,
                                                    h |-> fq[1].h, rid |-> 0, st |-> "done", lv |-> fq[1].lv])
              [] OTHER -> vq
-  /\ UNCHANGED <<srcVars, lifeVars, faults, local, cancelled, nextFetch, weff, rv, sp, modeVars, curr, revSince, seenVers>>
+  /\ UNCHANGED <<srcVars, auxVars, lifeVars, faults, local, cancelled, nextFetch, weff, rv, sp, modeVars, curr, revSince, seenVers>>
 
 -----------------------------------------------------------------------------
 (* Verifiers; their callbacks (store / revert) run in submission order on one goroutine *)
 
-VerifyDone(i) ==                      \* SanityCheckNewHeight finished (its verdict is ~bad)
+\* SanityCheckNewHeight finished.  From here on `bad` is the VERDICT the pipeline acts on.  As coded the
+\* verdict is computed on this very answer (bad stays what the answer is).  With VerdictPerAnswer = FALSE a
+\* verdict is remembered under the claimed hash: an honest answer records its tag, and a corrupted copy
+\* claiming a recorded hash is waved through.
+VerifyDone(i) ==
   /\ vq[i].st = "run"
-  /\ vq' = [vq EXCEPT ![i].st = "done"]
-  /\ UNCHANGED <<srcVars, lifeVars, faults, local, cancelled, nextFetch, weff, fq, rv, sp, modeVars, curr, revSince, seenVers>>
+  /\ LET hit == ~VerdictPerAnswer /\ vq[i].bad /\ vq[i].keep /\ vq[i].blk \in memo IN
+     /\ vq' = [vq EXCEPT ![i].st = "done", ![i].bad = vq[i].bad /\ ~hit]
+     /\ memo' = IF ~VerdictPerAnswer /\ ~vq[i].alt THEN memo \cup {vq[i].blk} ELSE memo
+  /\ UNCHANGED <<srcVars, tainted, lifeVars, faults, local, cancelled, nextFetch, weff, fq, rv, sp, modeVars, curr, revSince, seenVers>>
 
 CallbackReady == ~rv.on /\ ~sp.on /\ Len(vq) > 0 /\ vq[1].st = "done"
 StartRevert(lv, why) == rv' = [NoRv EXCEPT !.on = TRUE, !.lv = lv, !.st = "iter", !.why = why]
@@ -303,20 +355,20 @@ StartRevert(lv, why) == rv' = [NoRv EXCEPT !.on = TRUE, !.lv = lv, !.st = "iter"
 VerifyFail ==                         \* sanity check failed: resetStreams()
   /\ CallbackReady /\ vq[1].kind = "block" /\ vq[1].bad
   /\ vq' = Tail(vq) /\ cancelled' = TRUE
-  /\ UNCHANGED <<srcVars, lifeVars, faults, local, nextFetch, weff, fq, rv, sp, modeVars, curr, revSince, seenVers>>
+  /\ UNCHANGED <<srcVars, auxVars, lifeVars, faults, local, nextFetch, weff, fq, rv, sp, modeVars, curr, revSince, seenVers>>
 
 \* storeTask looks at the context first and calls Store afterwards; a stop of the node may fall in between
 \* (a stream reset cannot: resets come from this very goroutine).  Fine = TRUE keeps the two apart.
 StoreCheck ==                         \* storeTask: ctx not done
   /\ Fine /\ CallbackReady /\ vq[1].kind = "block" /\ ~vq[1].bad /\ ~cancelled /\ ~sp.ck
   /\ sp' = [sp EXCEPT !.ck = TRUE]
-  /\ UNCHANGED <<srcVars, lifeVars, faults, local, cancelled, nextFetch, weff, fq, vq, rv, modeVars, curr, revSince, seenVers>>
+  /\ UNCHANGED <<srcVars, auxVars, lifeVars, faults, local, cancelled, nextFetch, weff, fq, vq, rv, modeVars, curr, revSince, seenVers>>
 PassedCtxCheck == IF Fine THEN sp.ck ELSE ~cancelled
 
 StoreSkip ==                          \* storeTask sees ctx.Done
   /\ CallbackReady /\ vq[1].kind = "block" /\ ~vq[1].bad /\ cancelled /\ ~sp.ck
   /\ vq' = Tail(vq)
-  /\ UNCHANGED <<srcVars, lifeVars, faults, local, cancelled, nextFetch, weff, fq, rv, sp, modeVars, curr, revSince, seenVers>>
+  /\ UNCHANGED <<srcVars, auxVars, lifeVars, faults, local, cancelled, nextFetch, weff, fq, rv, sp, modeVars, curr, revSince, seenVers>>
 
 StoreErr ==                           \* any error but ErrParentDoesNotMatchHead: "expected block #n" (a block of
                                       \* another height), or the state root a forged successor's diff produces
@@ -324,7 +376,7 @@ StoreErr ==                           \* any error but ErrParentDoesNotMatchHead
   /\ \/ vq[1].h # Len(local)
      \/ (vq[1].forged /\ ParentOf(vq[1].blk) = HeadTag(local))
   /\ vq' = Tail(vq) /\ cancelled' = TRUE /\ sp' = NoSp
-  /\ UNCHANGED <<srcVars, lifeVars, faults, local, nextFetch, weff, fq, rv, modeVars, curr, revSince, seenVers>>
+  /\ UNCHANGED <<srcVars, auxVars, lifeVars, faults, local, nextFetch, weff, fq, rv, modeVars, curr, revSince, seenVers>>
 
 StoreMismatch ==                      \* ErrParentDoesNotMatchHead -> revertTask(n-2)  [H13]
   /\ CallbackReady /\ vq[1].kind = "block" /\ ~vq[1].bad /\ PassedCtxCheck
@@ -332,7 +384,7 @@ StoreMismatch ==                      \* ErrParentDoesNotMatchHead -> revertTask
   /\ vq' = Tail(vq) /\ sp' = NoSp
   /\ LET n == vq[1].h IN
      StartRevert(IF FixH13 THEN n - 1 ELSE (IF n >= 2 THEN n - 2 ELSE INF), "parent")
-  /\ UNCHANGED <<srcVars, lifeVars, faults, local, cancelled, nextFetch, weff, fq, modeVars, curr, revSince, seenVers>>
+  /\ UNCHANGED <<srcVars, auxVars, lifeVars, faults, local, cancelled, nextFetch, weff, fq, modeVars, curr, revSince, seenVers>>
 
 \* what storeTask does after the listener: catch-up mode switch (resets the streams), highest block,
 \* reorg notification (currReorg is cleared) and newHeads notification.  hs is the value of
@@ -351,28 +403,29 @@ StoreApply ==                         \* Blockchain.Store returned nil: the chai
   /\ vq[1].h = Len(local) /\ ParentOf(vq[1].blk) = HeadTag(local)
   /\ vq' = Tail(vq)
   /\ local' = Append(local, vq[1].blk)
+  /\ tainted' = IF vq[1].alt THEN tainted \cup {vq[1].blk} ELSE tainted   \* what went into the database
   /\ IF Fine
      THEN /\ sp' = [on |-> TRUE, acked |-> FALSE, tag |-> vq[1].blk, h |-> vq[1].h, rid |-> vq[1].rid, hs |-> -1, ck |-> FALSE]
           /\ UNCHANGED <<cancelled, catchUp, highest, curr, revSince>>
      ELSE PostOps(vq[1].h, highest) /\ UNCHANGED sp
-  /\ UNCHANGED <<srcVars, lifeVars, faults, nextFetch, weff, fq, rv, poll, polls, seenVers>>
+  /\ UNCHANGED <<srcVars, memo, lifeVars, faults, nextFetch, weff, fq, rv, poll, polls, seenVers>>
 
 StoreAck ==                           \* observable: Stored(b) (OnSyncStepDone(OpStore))
   /\ sp.on /\ ~sp.acked
   /\ sp' = [sp EXCEPT !.acked = TRUE, !.hs = highest]      \* highestBlockHeader.Load() follows the listener
-  /\ UNCHANGED <<srcVars, lifeVars, faults, local, cancelled, nextFetch, weff, fq, vq, rv, modeVars, curr, revSince, seenVers>>
+  /\ UNCHANGED <<srcVars, auxVars, lifeVars, faults, local, cancelled, nextFetch, weff, fq, vq, rv, modeVars, curr, revSince, seenVers>>
 
 StorePost ==
   /\ sp.on /\ sp.acked
   /\ PostOps(sp.h, sp.hs)
   /\ sp' = NoSp
-  /\ UNCHANGED <<srcVars, lifeVars, faults, local, nextFetch, weff, fq, vq, rv, poll, polls, seenVers>>
+  /\ UNCHANGED <<srcVars, auxVars, lifeVars, faults, local, nextFetch, weff, fq, vq, rv, poll, polls, seenVers>>
 
 RevertStart ==                        \* the callback built by fetcherTask after isReverting said "reorg"
   /\ CallbackReady /\ vq[1].kind = "revert"
   /\ vq' = Tail(vq)
   /\ StartRevert(vq[1].lv, "latest")
-  /\ UNCHANGED <<srcVars, lifeVars, faults, local, cancelled, nextFetch, weff, fq, sp, modeVars, curr, revSince, seenVers>>
+  /\ UNCHANGED <<srcVars, auxVars, lifeVars, faults, local, cancelled, nextFetch, weff, fq, sp, modeVars, curr, revSince, seenVers>>
 
 \* revertHead(): RevertHead + currReorg bookkeeping
 RevertHeadOp ==
@@ -394,18 +447,18 @@ EndTask ==
 RevertBreak ==                        \* HeadsHeader fails on an empty chain
   /\ rv.on /\ rv.st = "iter" /\ Len(local) = 0
   /\ EndTask
-  /\ UNCHANGED <<srcVars, lifeVars, faults, local, nextFetch, weff, fq, vq, sp, modeVars, curr, revSince, seenVers>>
+  /\ UNCHANGED <<srcVars, auxVars, lifeVars, faults, local, nextFetch, weff, fq, vq, sp, modeVars, curr, revSince, seenVers>>
 
 RevertUncond ==                       \* the head is above lastPossiblyValidHeight: RevertHead took effect
   /\ rv.on /\ rv.st = "iter" /\ Len(local) > 0 /\ Len(local) - 1 > rv.lv
   /\ RevertHeadOp
   /\ AfterRevert(TRUE, "uncond")
-  /\ UNCHANGED <<srcVars, lifeVars, faults, nextFetch, weff, fq, vq, sp, modeVars, seenVers>>
+  /\ UNCHANGED <<srcVars, auxVars, lifeVars, faults, nextFetch, weff, fq, vq, sp, modeVars, seenVers>>
 
 RevertCall(rid) ==                    \* observable: request BlockByNumber(head.Number)
   /\ rv.on /\ rv.st = "iter" /\ Len(local) > 0 /\ Len(local) - 1 <= rv.lv
   /\ rv' = [rv EXCEPT !.st = "wait", !.v0 = Len(versions), !.rid = rid]
-  /\ UNCHANGED <<srcVars, lifeVars, faults, local, cancelled, nextFetch, weff, fq, vq, sp, modeVars, curr, revSince, seenVers>>
+  /\ UNCHANGED <<srcVars, auxVars, lifeVars, faults, local, cancelled, nextFetch, weff, fq, vq, sp, modeVars, curr, revSince, seenVers>>
 
 RevertReturn(resp) ==                 \* observable: the answer; compare hashes
   /\ rv.on /\ rv.st = "wait"
@@ -424,23 +477,23 @@ RevertReturn(resp) ==                 \* observable: the answer; compare hashes
                      cont    == (resp.corr = "parent") \/ realCont
                  IN IF differs THEN rv' = [rv EXCEPT !.st = "rev", !.cont = cont] /\ UNCHANGED cancelled
                     ELSE EndTask
-  /\ UNCHANGED <<srcVars, lifeVars, local, nextFetch, weff, fq, vq, sp, modeVars, curr, revSince>>
+  /\ UNCHANGED <<srcVars, auxVars, lifeVars, local, nextFetch, weff, fq, vq, sp, modeVars, curr, revSince>>
 
 RevertDo ==                           \* RevertHead took effect after a hash comparison
   /\ rv.on /\ rv.st = "rev"
   /\ RevertHeadOp
   /\ AfterRevert(rv.cont, "compare")
-  /\ UNCHANGED <<srcVars, lifeVars, faults, nextFetch, weff, fq, vq, sp, modeVars, seenVers>>
+  /\ UNCHANGED <<srcVars, auxVars, lifeVars, faults, nextFetch, weff, fq, vq, sp, modeVars, seenVers>>
 
 RevertAck ==                          \* observable: Reverted(b) (OnReorg)
   /\ rv.on /\ rv.st = "ack"
   /\ rv' = [rv EXCEPT !.st = IF rv.cont THEN "iter" ELSE "fin"]
-  /\ UNCHANGED <<srcVars, lifeVars, faults, local, cancelled, nextFetch, weff, fq, vq, sp, modeVars, curr, revSince, seenVers>>
+  /\ UNCHANGED <<srcVars, auxVars, lifeVars, faults, local, cancelled, nextFetch, weff, fq, vq, sp, modeVars, curr, revSince, seenVers>>
 
 RevertEnd ==                          \* defer resetStreams()
   /\ rv.on /\ rv.st = "fin"
   /\ rv' = NoRv /\ cancelled' = TRUE
-  /\ UNCHANGED <<srcVars, lifeVars, faults, local, nextFetch, weff, fq, vq, sp, modeVars, curr, revSince, seenVers>>
+  /\ UNCHANGED <<srcVars, auxVars, lifeVars, faults, local, nextFetch, weff, fq, vq, sp, modeVars, curr, revSince, seenVers>>
 
 -----------------------------------------------------------------------------
 (* Stream reset and the latest-header poller *)
@@ -449,13 +502,13 @@ Restart ==
   /\ cancelled /\ ~stopping /\ fq = <<>> /\ vq = <<>> /\ ~rv.on /\ ~sp.on
   /\ cancelled' = FALSE /\ nextFetch' = Len(local)
   /\ weff' = IF catchUp THEN W ELSE 1
-  /\ UNCHANGED <<srcVars, lifeVars, faults, local, fq, vq, rv, sp, modeVars, curr, revSince, seenVers>>
+  /\ UNCHANGED <<srcVars, auxVars, lifeVars, faults, local, fq, vq, rv, sp, modeVars, curr, revSince, seenVers>>
 
 PollCall(rid) ==                      \* observable: request BlockHeaderLatest (pollLatest)
   /\ poll.st = "idle" /\ polls < MaxPolls
   /\ (~stopping \/ polls = 0)        \* the first call is made without looking at the context
   /\ poll' = [poll EXCEPT !.st = "wait", !.v0 = Len(versions), !.rid = rid]
-  /\ UNCHANGED <<srcVars, lifeVars, faults, local, pipeVars, highest, catchUp, polls, curr, revSince, seenVers>>
+  /\ UNCHANGED <<srcVars, auxVars, lifeVars, faults, local, pipeVars, highest, catchUp, polls, curr, revSince, seenVers>>
 
 PollReturn(resp) ==                   \* observable
   /\ poll.st = "wait"
@@ -466,13 +519,13 @@ PollReturn(resp) ==                   \* observable
      THEN poll' = [poll EXCEPT !.st = "got", !.got = IF resp.r = "ok" THEN resp.h ELSE -1]
           /\ UNCHANGED <<highest, polls>>
      ELSE highest' = (IF resp.r = "ok" THEN resp.h ELSE highest) /\ poll' = IdlePoll /\ polls' = polls + 1
-  /\ UNCHANGED <<srcVars, lifeVars, local, pipeVars, catchUp, curr, revSince>>
+  /\ UNCHANGED <<srcVars, auxVars, lifeVars, local, pipeVars, catchUp, curr, revSince>>
 
 PollApply ==                          \* highestBlockHeader.Store(header)
   /\ poll.st = "got"
   /\ highest' = IF poll.got >= 0 THEN poll.got ELSE highest
   /\ poll' = IdlePoll /\ polls' = polls + 1
-  /\ UNCHANGED <<srcVars, lifeVars, faults, local, pipeVars, catchUp, curr, revSince, seenVers>>
+  /\ UNCHANGED <<srcVars, auxVars, lifeVars, faults, local, pipeVars, catchUp, curr, revSince, seenVers>>
 
 -----------------------------------------------------------------------------
 (* The node is stopped and started again: the Synchronizer's context is cancelled (which cancels the
@@ -482,7 +535,7 @@ PollApply ==                          \* highestBlockHeader.Store(header)
 Shutdown ==                           \* observable (environment): Stop
   /\ restarts < MaxRestarts /\ ~stopping
   /\ stopping' = TRUE /\ cancelled' = TRUE
-  /\ UNCHANGED <<srcVars, restarts, faults, local, nextFetch, weff, fq, vq, rv, sp, modeVars, curr, revSince, seenVers>>
+  /\ UNCHANGED <<srcVars, auxVars, restarts, faults, local, nextFetch, weff, fq, vq, rv, sp, modeVars, curr, revSince, seenVers>>
 
 NodeRestart ==                        \* observable (environment): Restart
   /\ stopping /\ fq = <<>> /\ vq = <<>> /\ ~rv.on /\ ~sp.on /\ poll.st = "idle"
@@ -490,7 +543,8 @@ NodeRestart ==                        \* observable (environment): Restart
   /\ cancelled' = FALSE /\ nextFetch' = Len(local) /\ weff' = 1
   /\ highest' = -1 /\ catchUp' = FALSE /\ polls' = 0
   /\ curr' = NoReorg /\ revSince' = <<>>
-  /\ UNCHANGED <<srcVars, faults, local, fq, vq, rv, sp, poll, seenVers>>
+  /\ memo' = {}
+  /\ UNCHANGED <<srcVars, tainted, faults, local, fq, vq, rv, sp, poll, seenVers>>
 
 Budget(c) == faults + c <= MaxFaults
 
@@ -541,6 +595,7 @@ TypeOK ==
   /\ Len(fq) <= W + 2 /\ Len(vq) <= WV + 2
   /\ faults \in 0..MaxFaults /\ highest \in -1..(MaxLen - 1)
   /\ weff \in {1, W}
+  /\ VerdictPerAnswer => memo = {}
 
 \* every block of the local chain is a block some version of the source had, with the same ancestry
 LocalIsSourceBlocks ==
@@ -554,9 +609,12 @@ IsRevertStep == Len(local') = Len(local) - 1
 StoreSafe ==
   [][IsStoreStep =>
        /\ Prefix(local', Len(local)) = local
-       /\ CallbackReady /\ vq[1].kind = "block" /\ ~vq[1].bad /\ ~vq[1].forged /\ PassedCtxCheck
+       /\ CallbackReady /\ vq[1].kind = "block" /\ ~vq[1].bad /\ ~vq[1].forged /\ ~vq[1].alt /\ PassedCtxCheck
        /\ vq[1].blk = HeadTag(local')
        /\ ParentOf(HeadTag(local')) = HeadTag(local)]_vars
+
+\* ... stated over what the database holds: no block was ever stored with content other than the source's
+StoredOnlyVerified == tainted = {}
 
 HeadMovesOnlyByStoreOrRevert ==
   [][local' # local => (IsStoreStep \/ (IsRevertStep /\ local' = Prefix(local, Len(local) - 1)))]_vars
